@@ -71,6 +71,15 @@ Theorem C09_retention_only_old :
 Proof. exact retention_only_old. Qed.
 Print Assumptions C09_retention_only_old.
 
+(* The same over whole histories: every removal any retention pass of the
+   history ever made (logged with the chunk's newest row and that pass's
+   cut-off) concerned an expired chunk. *)
+Theorem C09_retention_log_only_old :
+  forall (c : gcfg) (t0 : Z) (h : list label) (e : retev),
+  In e (rlog (run c h (init t0))) -> r_max e < r_cutoff e.
+Proof. exact retention_log_from_init. Qed.
+Print Assumptions C09_retention_log_only_old.
+
 (* The only ways out of the catalog: source of a compaction swap, or old
    enough at a retention pass. *)
 Theorem C09_catalog_removal_causes :
